@@ -294,6 +294,8 @@ func c19E2E(env *fw.Env) {
 				add(c19Case{Scenario: "alive-not-answering", Active: (thr+rep)%2 == 0, Threshold: thr, Suppress: false})
 			}
 		}
+		add(c19Case{Scenario: "dead-after-slow-reply", Active: rep%2 == 0, Threshold: 1 + rep%2, Suppress: true})
+		add(c19Case{Scenario: "dead-after-slow-reply", Active: rep%2 == 1, Threshold: 2 - rep%2, Suppress: true})
 		add(c19Case{Scenario: "chatty", Active: rep%2 == 0, Threshold: 2, Suppress: true})
 		add(c19Case{Scenario: "withheld-reply", Active: rep%2 == 1, Threshold: 1, Suppress: true})
 	}
@@ -322,7 +324,11 @@ func c19One(env *fw.Env, cs c19Case) {
 		interval, t6 = 200*time.Millisecond, 300*time.Millisecond
 	}
 	sup := cs.Suppress
-	rg, err := newRig(rigOpts{Active: cs.Active, T3: 8 * time.Second, T6: t6, Linktest: interval, LinktestFails: cs.Threshold, Suppress: &sup})
+	t3 := 8 * time.Second
+	if cs.Scenario == "dead-after-slow-reply" {
+		t3 = 15 * time.Second
+	}
+	rg, err := newRig(rigOpts{Active: cs.Active, T3: t3, T6: t6, Linktest: interval, LinktestFails: cs.Threshold, Suppress: &sup})
 	if err != nil {
 		env.Discard()
 		return
@@ -554,6 +560,51 @@ func c19One(env *fw.Env, cs c19Case) {
 			fail("chatty-peer-probed", fmt.Sprintf("suppression on: traffic every %v (max measured gap %v < interval %v) and still %d probes were sent", interval/4, maxGap, interval, n))
 		} else {
 			env.Event("chatty_zero_probes", 1)
+		}
+	case "dead-after-slow-reply":
+		// a transaction whose reply takes several intervals (the probe timer fires while the reply is outstanding and
+		// is skipped), then the reply, then a dead peer: the drop must still come about threshold x (interval + T6)
+		// later — the monitoring must not have gone to sleep for a T3 (15 s here)
+		var wg sync.WaitGroup
+		wg.Add(1)
+		go func() {
+			defer wg.Done()
+			ctx, cancel := context.WithTimeout(context.Background(), 20*time.Second)
+			defer cancel()
+			_, _ = rg.Conn.SendDataMessage(ctx, 1, 1, true, secs2.A("slow reply"))
+		}()
+		var prim peer.Frame
+		if !waitFor(5*time.Second, func() bool {
+			for _, ev := range pc.Log() {
+				if ev.Frame.IsData() && ev.Frame.WBit() {
+					prim = ev.Frame
+					return true
+				}
+			}
+
+			return false
+		}) {
+			env.Discard()
+			wg.Wait()
+			return
+		}
+		time.Sleep(interval*5/2 + 20*time.Millisecond)
+		mode.Store(1) // from now on the peer answers nothing
+		before := probes.Load()
+		_ = pc.Send(peer.Data(prim.Stream(), prim.Function()+1, false, prim.Session, prim.Sys, nil))
+		replied := time.Now()
+		wg.Wait()
+		bound := interval + time.Duration(cs.Threshold)*(interval+t6) + 3*time.Second
+		if !pc.WaitClosed(bound + 20*time.Second) {
+			fail("dead-peer-not-dropped-after-slow-reply", fmt.Sprintf("threshold %d: the peer answered a slow transaction and then went silent; %v later the link is still up (%d probes since)", cs.Threshold, bound+20*time.Second, probes.Load()-before))
+			return
+		}
+		if el := time.Since(replied); el > bound {
+			fail("dead-peer-dropped-late-after-slow-reply", fmt.Sprintf("threshold %d, interval %v, T6 %v, T3 15 s: the peer's last frame (a reply that had been outstanding for %v) was followed by silence, and the link was dropped only %v later; about interval + threshold x (interval + T6) = %v is prescribed (bound used: that + 3 s)", cs.Threshold, interval, t6, interval*5/2, el.Round(time.Millisecond), interval+time.Duration(cs.Threshold)*(interval+t6)))
+		} else if n := probes.Load() - before; n != int64(cs.Threshold) {
+			fail("dead-peer-probe-count-after-slow-reply", fmt.Sprintf("the peer saw %d Linktest.req after its last frame before the close, threshold is %d", n, cs.Threshold))
+		} else {
+			env.Event("dead_peer_dropped_in_time_after_slow_reply", 1)
 		}
 	case "withheld-reply":
 		var wg sync.WaitGroup
